@@ -706,6 +706,64 @@ def _d12(chk, fb):
     chk.floor("D12", "position-moving members of the observer's iterators", n, 8)
 
 
+def _d13(chk, fb):
+    """ids in the edge table stay below the allocator: link(a, b) issues 'highestEdgeID_++' without looking at the table, so every
+    id that enters edgeStructure_ must be below the counter afterwards.  A GlobalGraph member that records an edge under an id it
+    receives from outside the class (a parameter that reaches linkInEdgeStructure_ / edgeStructure_[id], directly or through
+    helpers of the class that pass it on) therefore also moves the counter past that id (an assignment to highestEdgeID_ that
+    mentions the id; that it only moves forward is rule D4 of C15).  Without it the next automatic link re-issues the id and
+    overwrites the edge-table entry: two relations of the node table share one edge.  A helper that only receives the id from
+    other members of the class is judged through those members"""
+    fns = [f for f in _graph_fns(fb) if (f.cls or "") == G and f.body is not None]
+    rec = {}          # function key -> (function, index of the parameter that is recorded as an edge id, site node)
+    for f in fns:
+        if f.name == "linkInEdgeStructure_" and len(f.params) == 3:
+            rec[f.key] = (f, 2, None)
+    changed = True
+    while changed:
+        changed = False
+        for f in fns:
+            if f.key in rec:
+                continue
+            pn = [p_["name"] for p_ in f.params]
+            for c in f.calls():
+                for t in fb.targets(c, static_type_only=True):
+                    if t.key in rec and rec[t.key][1] < len(f.args(c)):
+                        a_ = render(f.args(c)[rec[t.key][1]])
+                        if a_ in pn and f.key not in rec:
+                            rec[f.key] = (f, pn.index(a_), c)
+                            changed = True
+            for x, k, v in _writes_to(f, "edgeStructure_"):
+                if k in pn and f.key not in rec:
+                    rec[f.key] = (f, pn.index(k), x)
+                    changed = True
+    n = 0
+    for key, (f, idx, node) in sorted(rec.items()):
+        if node is None:
+            continue
+        idn = f.params[idx]["name"]
+        # does a member of the class hand its own parameter on to f?  then that member is the one to judge
+        inner = False
+        for g in fns:
+            if g.key == key or g.key not in rec:
+                continue
+            for c in g.calls():
+                if any(t.key == key for t in fb.targets(c, static_type_only=True)) and idx < len(g.args(c)) and render(g.args(c)[idx]) in [p_["name"] for p_ in g.params]:
+                    inner = True
+        if inner:
+            continue
+        n += 1
+        adv = [x for x in f.all_nodes() if x["k"] == "BinaryOperator" and x.get("op") == "=" and render(kids(x)[0]).replace("this.", "") == "highestEdgeID_" and idn in render(kids(x)[1])]
+        con = "allocator-passes-chosen-id:" + idn
+        if adv:
+            chk.proved("D13", f.key, con, f.loc(adv[0]), "the id counter is moved past the caller's id (%s)" % render(adv[0])[:60])
+        else:
+            chk.refuted("D13", f.key, con, f.loc(node),
+                        "%s records an edge under the caller's id '%s' and never moves highestEdgeID_ past it: link(a, b) later issues that id again (it does not look at the table), the edge-table entry is overwritten and two relations of the node table carry the same edge id" % (f.name, idn),
+                        witness={"history": "addSon(a, b, 1); addSon(a, c); addSon(a, d): the outgoing edges of a are 1, 0, 1 and getNumberOfEdges() is 2"})
+    chk.floor("D13", "members recording an edge under an id received from outside the class", n, 1)
+
+
 def _d11(chk, fb):
     """snapshot freshness: a local list obtained from a query of the graph structure (neighbours, edges) and then consumed by a
     loop must not have a write to that structure between the query and the start of its loop - the list then names relations
@@ -805,4 +863,6 @@ def run(chk, fb, tier):
     _d11(chk, fb)
     chk.rule("D12", "E5 sibling agreement: start() and next() of the observer's node / edge iterator classes both run the loop that skips graph elements without an associated object after moving the graph iterator")
     _d12(chk, fb)
+    chk.rule("D13", "a GlobalGraph member that records an edge under a caller-chosen id also moves highestEdgeID_ past that id (link(a, b) issues ids without looking at the table)")
+    _d13(chk, fb)
     chk.assume("unchecked map::find results on absent ids inside protected GlobalGraph members are undefined behaviour that the installed libstdc++ tolerates (an exception is still raised): not asserted")
